@@ -7,7 +7,7 @@ import torch
 from . import models, wq
 
 EVIDENCE = dict(
-    bounds="all parameters and the input symbolic; modules Linear(3,2), Linear(160,1) (automatic group size 32), Conv2d(1,2,2), LayerNorm+Linear, MLP; six weight qtypes; activations None/qint8 (quick) + qfloat8 (thorough); float32 (quick: every module kind) + float16/bfloat16 (thorough: every module kind; quick: Linear(3,2) with four histories); lifecycle histories of length <= 4 over {forward, calibrate, freeze, deepcopy, to(cpu)} (8 fixed histories in quick, 40 in thorough); partially frozen models: a two-layer MLP with one module frozen by hand before freeze(model) (3 histories)",
+    bounds="all parameters and the input symbolic; modules Linear(3,2), Linear(160,1) (automatic group size 32), Conv2d(1,2,2), LayerNorm+Linear, MLP; six weight qtypes; activations None/qint8 (quick) + qfloat8 (thorough); float32 (quick: every module kind) + float16/bfloat16 (thorough: every module kind; quick: Linear(3,2) with four histories); lifecycle histories of length <= 4 over {forward, calibrate, freeze, deepcopy, to(cpu)} (8 fixed histories in quick, 40 in thorough); mixed quantization (first module with quantized activations, the next weights-only) on the MLP; partially frozen models: a two-layer MLP with one module frozen by hand before freeze(model) (3 histories)",
     outside="device moves to CUDA/MPS; architectures other than the enumerated ones (the architecture is enumerated, not solved); float16 deepcopy of packed payloads beyond these shapes",
     assumptions=[
         "ALG: two output tensors are bit-identical for every input when their element terms are identical (hash-consed terms over uninterpreted float operations: holds under any float semantics); when terms differ the disequality is asked in BIT and the model replayed",
@@ -56,10 +56,14 @@ def cases(tier, seed):
                     if kind == "linear-wide" and (q in wq.QT8 or a is not None):
                         continue
                     out.append(dict(kind=kind, dtype=dt, qtype=q, act=a, histories=hs if kind != "linear-wide" else hs[:2]))
-        # partially frozen models: one module frozen by hand (or the model quantized and frozen in two steps) before freeze(model)
+        # mixed quantization (first module with quantized activations, the next weights-only) on the MLP; partially frozen models: one module frozen by hand (or the model quantized and frozen in two steps) before freeze(model)
         for q in ALLQ if tier == "thorough" else ["qint8", "qint4", "qfloat8_e4m3fn"]:
             for a in acts[:2]:
                 out.append(dict(kind="mlp", dtype=dt, qtype=q, act=a, histories=HIST_PARTIAL))
+    # mixed quantization: a weights-only module fed the quantized activations of its predecessor
+    for q in (["qint8", "qfloat8_e4m3fn", "qint4"] if tier == "quick" else ALLQ):
+        for a in acts[1:]:
+            out.append(dict(kind="mlp", dtype="float32", qtype=q, act=a, mixed=True, histories=hs[:4]))
     if tier == "quick":
         # half-precision modules (a dtype-specific freezing path rounds differently from the dynamic one): one module kind
         for dt in ("float16", "bfloat16"):
@@ -230,6 +234,19 @@ def same(a, b):
     return ok
 
 
+def _quantize(model, qtype_name, act_name, mixed=False):
+    """uniform quantization, or (mixed) the first eligible module with quantized activations and the others weights-only: a
+    weights-only module then receives the quantized activations of its predecessor"""
+    from optimum.quanto import quantize
+
+    w, a = wq.qt(qtype_name), (wq.qt(act_name) if act_name else None)
+    if not mixed:
+        return quantize(model, weights=w, activations=a)
+    elig = [m_ for m_ in model.modules() if type(m_) in (torch.nn.Linear, torch.nn.Conv2d)]
+    quantize(model, modules=elig[:1], weights=w, activations=a)
+    quantize(model, modules=elig[1:], weights=w)
+
+
 def run_case(case, res):
     from symt import api
     from symt.api import Session
@@ -239,7 +256,7 @@ def run_case(case, res):
     dt = api.DT[case["dtype"]]
     for hist in case["histories"]:
         model, x = models.make(case["kind"], dt)
-        quantize(model, weights=wq.qt(case["qtype"]), activations=wq.qt(case["act"]) if case["act"] else None)
+        _quantize(model, case["qtype"], case["act"], case.get("mixed", False))
         if case["act"]:
             models.set_scales(model)
         with Session(res) as m:
@@ -252,7 +269,7 @@ def run_case(case, res):
         nv = x.numel() + sum(v.size for v in P.values())
         res.query("lifecycle-preserves-outputs-and-state", "ALG", "unsat" if not probs else "sat", 0.0, sub=f"{hist}", nvars=nv)
         if probs:
-            base = dict(kind=case["kind"], dtype=case["dtype"], qtype=case["qtype"], act=case["act"], history=hist, x=api.enc_tensor(x), note=[f"step {i} {s}: {p}" for i, s, p in probs][:4])
+            base = dict(kind=case["kind"], dtype=case["dtype"], qtype=case["qtype"], act=case["act"], mixed=case.get("mixed", False), history=hist, x=api.enc_tensor(x), note=[f"step {i} {s}: {p}" for i, s, p in probs][:4])
             res.candidate("lifecycle", "ALG", base, exact=False)
             if MISMATCH and wq.qt(case["qtype"]).bits < 8:
                 # terms differ for low-bit weights: besides the seed, replay weights whose quotients x/scale sit on rounding
@@ -297,7 +314,7 @@ def replay(rec):
             for n, p in model.named_parameters():
                 if n in inp["params"]:
                     p.copy_(api.dec_tensor(inp["params"][n]))
-    quantize(model, weights=wq.qt(inp["qtype"]), activations=wq.qt(inp["act"]) if inp["act"] else None)
+    _quantize(model, inp["qtype"], inp["act"], inp.get("mixed", False))
     if inp["act"]:
         models.set_scales(model)
     probs = run_history(model, x, inp["history"], lambda t: (t.dequantize() if hasattr(t, "dequantize") else t).detach().clone())
